@@ -46,6 +46,15 @@ func c01Alphabet(keys []val.Item, thorough bool) func(m *model.Model) []drv.Op {
 				ks("Upd(ADD c)", drv.Op{K: drv.KUpd, Key: k, Upd: rx.U(rx.Add("c", ":one")), Values: map[string]val.V{":one": val.N("1")}})
 			}
 			ks("Upd(REMOVE a)", drv.Op{K: drv.KUpd, Key: k, Upd: rx.U(rx.Remove("a"))})
+			// writes that are rejected (on a stored and on an absent key): the map must not change
+			ks("Upd(rejected: operand absent)", drv.Op{K: drv.KUpd, Key: k, Upd: rx.U(rx.Set("a", rx.RPlus(rx.RP("zz"), rx.RV(":one")))), Values: map[string]val.V{":one": val.N("1")}})
+			ks("Upd(rejected: condition)", drv.Op{K: drv.KUpd, Key: k, Upd: rx.U(rx.Set("a", rx.RV(":v"))), Cond: rx.Exists("zz"), Values: map[string]val.V{":v": val.S("no")}})
+			ks("Put(rejected: condition)", drv.Op{K: drv.KPut, Item: with(k, "a", val.S("no")), Cond: rx.Exists("zz")})
+			ks("Del(rejected: condition)", drv.Op{K: drv.KDel, Key: k, Cond: rx.Exists("zz")})
+			if thorough {
+				bad := "SET a = :v,"
+				ks("Upd(rejected: syntax)", drv.Op{K: drv.KUpd, Key: k, UpdStr: &bad, Values: map[string]val.V{":v": val.S("no")}})
+			}
 			if thorough {
 				ks("Upd(SET a,REMOVE b)", drv.Op{K: drv.KUpd, Key: k, Upd: rx.U(rx.Set("a", rx.RV(":v")), rx.Remove("b")), Values: map[string]val.V{":v": val.S("w")}})
 			}
@@ -98,7 +107,7 @@ func C01(run *ev.Run, tier string) map[string]interface{} {
 	})
 	cov := total.Coverage()
 	cov["per_system"] = per
-	cov["alphabet"] = "Get, Put(full|shrinking|bare), Del(ALL_OLD), Upd(SET a | SET b | ADD c (c<2) | REMOVE a) on every key; schemas H(h:S) and HR(h:S,r:S); both SDK adapters"
+	cov["alphabet"] = "Get, Put(full|shrinking|bare), Del(ALL_OLD), Upd(SET a | SET b | ADD c (c<2) | REMOVE a) and rejected writes (update whose operand is absent, false conditions on Put/Upd/Del; thorough: a syntax error) on every key; schemas H(h:S) and HR(h:S,r:S); both SDK adapters"
 	cov["oracle"] = "reference map key->item in lock-step; after every transition: DescribeTable, GetItem of every key, Scan, Query of every partition in both directions"
 	return cov
 }
